@@ -140,7 +140,7 @@ def run_tlc(
     cfg: str | Path | None = None,
     *,
     workdir: Path,
-    workers: int | str = "auto",
+    workers: int | str = 6,
     env: dict[str, str] | None = None,
     timeout: int = 900,
     cont: bool = False,
